@@ -335,7 +335,12 @@ structure Match (C : Type) where
 def matchLess {C : Type} (N : NumEnv C) (a b : Match C) : Bool :=
   if N.gt a.conf b.conf ∨ N.gt b.conf a.conf then N.gt a.conf b.conf
   else if a.startTok ≠ b.startTok then a.startTok < b.startTok
-  else a.endTok > b.endTok
+  else if a.endTok ≠ b.endTok then a.endTok > b.endTok
+  else if a.startLine ≠ b.startLine then a.startLine < b.startLine
+  else if a.endLine ≠ b.endLine then a.endLine < b.endLine
+  else if a.matchType ≠ b.matchType then a.matchType < b.matchType
+  else if a.name ≠ b.name then a.name < b.name
+  else a.variant < b.variant
 
 def contains {C : Type} (a b : Match C) : Bool := a.startLine ≤ b.startLine && a.endLine ≥ b.endLine
 def between (a b c : Nat) : Bool := b ≤ a && a ≤ c
@@ -464,7 +469,7 @@ def matchModel {C : Type} (N : NumEnv C) (crc : Text → Nat) (wordOf : Nat → 
       let retain := retainPass N sorted
       let out := (sorted.zip retain).filterMap (fun (p : Match C × Bool) => if p.2 then some p.1 else none)
       match target.back? with
-      | none => .panic "match: id.Tokens[len(id.Tokens)-1] on empty token list"
+      | none => .ok { ms := out, totalInputLines := 0 }
       | some t => .ok { ms := out, totalInputLines := t.line }
 
 end LC.V2Match
